@@ -423,7 +423,7 @@ def check_C18(tier, seed):
 
 
 FMT_PLANS = ["ok", "slow", "fail_after_read", "slow_read", "fail_no_read", "empty", "ok_no_read", "ok_partial_read", "kill_no_read", "kill_after_read", "kill_mid_read",
-             "kill_mid_output", "term_after_read", "absent", "near_swap", "near_str_ws", "near_prefix", "near_twice", "near_source_ws", "near_field_swap"]
+             "kill_mid_output", "term_after_read", "absent", "near_swap", "near_str_ws", "near_prefix", "near_twice", "near_source_ws", "near_field_swap", "near_swap_raw", "near_str_ws_raw", "near_twice_raw", "near_source_ws_raw"]
 
 
 def describe_fmt(case, events, matched):
@@ -993,9 +993,9 @@ def check_C16(tier, seed):
     # a formatter whose output differs from the program only by a blank inside the SOURCE literal must not be believed
     fmt_env()
     for i, e in enumerate(exported[::max(1, len(exported) // (12 if quick else 60))]):
-        cases.append({"id": "src-fmtws-%03d" % i, "family": "source-formatter-alters-literal", "S": F.source_shader(F.class_string(e["classes"])), "opts": F.opts(rustfmt=True), "fmt_plan": "near_source_ws"})
+        cases.append({"id": "src-fmtws-%03d" % i, "family": "source-formatter-alters-literal", "S": F.source_shader(F.class_string(e["classes"])), "opts": F.opts(rustfmt=True), "fmt_plan": ("near_source_ws", "near_source_ws_raw")[i % 2]})
     for i, (name, text) in enumerate(seeds[:4]):
-        cases.append({"id": "src-fmtws-real-%d" % i, "family": "source-formatter-alters-literal", "wgsl": text, "opts": F.opts(rustfmt=True), "fmt_plan": "near_source_ws"})
+        cases.append({"id": "src-fmtws-real-%d" % i, "family": "source-formatter-alters-literal", "wgsl": text, "opts": F.opts(rustfmt=True, enc=True), "fmt_plan": ("near_source_ws", "near_source_ws_raw")[i % 2]})
     drive_and_judge(rep, "C16", cases, "static", ["source", "nosource_sha"])
     # a sample goes through rustc: SOURCE evaluated by the compiler and handed to the (recording) device
     sample = [c for c in cases if "include" not in c["opts"]][::(30 if quick else 8)]
